@@ -90,6 +90,9 @@ func monitor(c hxlib.Case, outs []string) (vs []hxlib.Violation) {
 				if len(f) > 3 {
 					ended = f[3]
 				}
+				if ended == "worker-failed" {
+					add("C07:scheduler-crash", "the process running the scenario died (panic or fatal error in the scheduler) three times in a row", i)
+				}
 			}
 			continue
 		}
